@@ -3,9 +3,11 @@ import ast
 
 from .. import registries as R
 from .. import fmt as F
-from ..astutil import dotted, const, unparse, walk_shallow, fstring_pattern
+from ..astutil import dotted, const, unparse, walk_shallow, fstring_pattern, \
+    local_defs
 from ..cfg import build_cfg, repo_noreturn
 from ..model import AnalysisError
+from .. import pat
 
 PSEUDO = ('_label', '_dbg_info_start', '_dbg_info_end', '_empty_block')
 TYPE_CHARS = '%&!#$'
@@ -29,11 +31,14 @@ def codec_agreement(ctx):
     asm = repo.func('qbee.qvm_codegen', 'QvmCode.assembled')
     dis = repo.func('qvm.module', 'QModule.disassemble')
     asm_loop = _loop_over(asm.node, 'self._instrs')
-    dis_loop = _loop_over(dis.node, 'len(bcode)')
+    dis_loop = next((n for n in ast.walk(dis.node)
+                     if isinstance(n, ast.While)), None)
     if asm_loop is None or dis_loop is None:
         raise AnalysisError('anchor vanished: assembler/disassembler loop')
     bconv = F.bconv_helper(asm.node)
-    helpers = {'bconv': bconv} if bconv else {}
+    helpers = {bconv[0]: bconv[1]} if bconv else {}
+    asm_subj = F.dispatch_subject(asm_loop.body)
+    dis_subj = F.dispatch_subject(dis_loop.body)
 
     rule = 'C09.codec-agreement'
     ctx.rule(rule, 'for every opcode the assembler arm, the Operand '
@@ -55,7 +60,7 @@ def codec_agreement(ctx):
                 raise AnalysisError(f'operand class {c} of {op} not found')
         enc = ''.join(F.strip(opcls[c]['enc'][0]) for c in d.operands)
         dec = ''.join(F.strip(opcls[c]['dec'][0]) for c in d.operands)
-        wa = F.ChainWalk(op, helpers)
+        wa = F.ChainWalk(op, helpers, asm_subj)
         wa.walk(asm_loop.body)
         a_fmts = list(wa.formats)
         for test, f1, f2 in wa.alt_formats:
@@ -67,7 +72,7 @@ def codec_agreement(ctx):
                             f'{test}', asm.file, asm.line)
             a_fmts += f1 or f2
         a = ''.join(F.strip(x) for x in a_fmts)
-        wd = F.ChainWalk(op)
+        wd = F.ChainWalk(op, None, dis_subj)
         wd.walk(dis_loop.body)
         d_fmts = list(wd.formats)
         for test, f1, f2 in wd.alt_formats:
@@ -103,7 +108,7 @@ def codec_agreement(ctx):
                             f'{name}.size={info["size"]} but format {f} is '
                             f'{F.width(f)} bytes', 'qvm/instrs.py',
                             info['line'])
-    return instrs, asm, asm_loop
+    return instrs, asm, asm_loop, asm_subj
 
 
 def _fmt_sites(fn_node, kinds):
@@ -238,8 +243,10 @@ def section_agreement(ctx):
     rids = set()
     for n in ast.walk(readers['frame'].node):
         if isinstance(n, ast.Compare) and \
-                dotted(n.left) == 'section_type' and \
-                isinstance(const(n.comparators[0]), int):
+                isinstance(n.left, ast.Name) and \
+                isinstance(n.ops[0], ast.Eq) and \
+                isinstance(const(n.comparators[0]), int) and \
+                isinstance(getattr(n, '_parent', None), ast.If):
             rids.add(const(n.comparators[0]))
     ctx.instance(rule_id, f'{w.file}:QvmCode.__bytes__:ids',
                  sample={'written': sorted(wids), 'read': sorted(rids)})
@@ -249,104 +256,118 @@ def section_agreement(ctx):
                     f'the loader {sorted(rids)}', w.file, w.line)
 
 
-def jump_operands(ctx, instrs, asm, asm_loop):
+def jump_operands(ctx, instrs, asm, asm_loop, asm_subj):
     rule = 'C09.jump-operands-are-instruction-starts'
-    ctx.rule(rule, 'label addresses are recorded only from cur_offset in '
-             'the _label arm; cur_offset advances only by the bytes just '
-             'appended; every Label-operand opcode is patched from labels[]')
-    # (a) assignments to labels[...]
-    n_lab = 0
-    for n in ast.walk(asm.node):
-        if isinstance(n, ast.Assign) and \
-                isinstance(n.targets[0], ast.Subscript) and \
-                dotted(n.targets[0].value) == 'labels':
-            n_lab += 1
-            construct = f'{asm.file}:QvmCode.assembled:labels[]='
-            ctx.instance(rule, construct, sample={'value': unparse(n.value)})
-            if dotted(n.value) != 'cur_offset':
-                ctx.finding(rule, construct,
-                            f'label address recorded as {unparse(n.value)}, '
-                            f'not cur_offset', asm.file, n.lineno)
-    if n_lab == 0:
-        raise AnalysisError('anchor vanished: labels[name] = cur_offset')
-    # (b) cur_offset updates
-    n_upd = 0
-    for n in ast.walk(asm_loop):
-        if isinstance(n, ast.AugAssign) and dotted(n.target) == 'cur_offset':
-            n_upd += 1
-            construct = f'{asm.file}:QvmCode.assembled:cur_offset+='
-            ctx.instance(rule, construct, sample={'value': unparse(n.value)})
-            # sibling statement appending to code
-            parent = n._parent
-            body = None
-            for fld in ('body', 'orelse'):
-                if n in getattr(parent, fld, []):
-                    body = getattr(parent, fld)
-            appended = None
-            for s in body or []:
-                if isinstance(s, ast.AugAssign) and \
-                        dotted(s.target) == 'code':
-                    appended = s.value
-            ok = False
-            if appended is not None and isinstance(appended, ast.BinOp):
-                parts = [unparse(appended.left), unparse(appended.right)]
-                # cur_offset += 1 + len(bargs)  with code += op_code + bargs
-                if isinstance(n.value, ast.BinOp) and \
-                        isinstance(n.op, ast.Add):
-                    txt = unparse(n.value)
-                    if 'len(bargs)' in txt and '1' in txt and \
-                            'bargs' in parts and 'op_code' in parts:
-                        # op_code is a single byte: bytes([op_code])
-                        ok = any(isinstance(a, ast.Assign) and
-                                 dotted(a.targets[0]) == 'op_code' and
-                                 unparse(a.value).startswith('bytes([')
-                                 for a in body)
-            if not ok:
-                ctx.finding(rule, construct,
-                            f'cur_offset advanced by {unparse(n.value)} '
-                            f'which is not provably the size of the bytes '
-                            f'appended to code in the same block',
-                            asm.file, n.lineno)
-        elif isinstance(n, ast.Assign) and any(
-                dotted(t) == 'cur_offset' for t in n.targets):
-            ctx.finding(rule, f'{asm.file}:QvmCode.assembled:cur_offset=',
-                        'cur_offset reassigned inside the assembly loop',
-                        asm.file, n.lineno)
-    if n_upd != 1:
-        ctx.finding(rule, f'{asm.file}:QvmCode.assembled:cur_offset-updates',
-                    f'{n_upd} updates of cur_offset in the loop (expected 1)',
-                    asm.file, asm.line)
-    # (c) Label operand ops are patched
-    patch_src = None
-    for n in ast.walk(asm.node):
-        if isinstance(n, ast.For) and 'patch_positions' in unparse(n.iter):
-            patch_src = n
-    if patch_src is None:
+    ctx.rule(rule, 'label addresses are recorded only from the running code '
+             'offset in the _label arm; the offset advances only by the '
+             'bytes just appended; every Label-operand opcode is patched '
+             'from the label table')
+    # roles, identified structurally
+    n, b = pat.first('_OFF += 1 + len(_B)', asm_loop)
+    if n is None:
+        n, b = pat.first('_OFF += len(_B) + 1', asm_loop)
+    if n is None:
+        # any update of an int accumulator inside the loop is suspect
+        upd = [x for x in ast.walk(asm_loop) if isinstance(x, ast.AugAssign)
+               and isinstance(x.target, ast.Name)]
+        raise_or = [u for u in upd if 'len(' in unparse(u.value)]
+        if raise_or:
+            u = raise_or[0]
+            ctx.instance(rule, f'{asm.file}:QvmCode.assembled:offset+=')
+            ctx.finding(rule, f'{asm.file}:QvmCode.assembled:offset+=',
+                        f'the code offset is advanced by {unparse(u.value)}, '
+                        f'not by 1 + len(operand bytes)', asm.file,
+                        u.lineno)
+            return
+        raise AnalysisError('anchor vanished: code offset update')
+    off = unparse(b['_OFF'])
+    bargs = unparse(b['_B'])
+    construct = f'{asm.file}:QvmCode.assembled:offset+='
+    ctx.instance(rule, construct, sample={'offset_var': off,
+                                          'operand_bytes': bargs})
+    # appended bytes: CODE += OPC + B in the same block, OPC one byte
+    body = None
+    for fld in ('body', 'orelse'):
+        if n in getattr(n._parent, fld, []):
+            body = getattr(n._parent, fld)
+    app = [(x, m) for s_ in body or []
+           for x, m in pat.find_all('_CODE += _OPC + _B2', s_)]
+    ok = False
+    code_var = None
+    for x, m in app:
+        if unparse(m['_B2']) == bargs:
+            code_var = unparse(m['_CODE'])
+            opc = unparse(m['_OPC'])
+            ok = any(pat.match(f'{opc} = bytes([__])', s_) is not None
+                     for s_ in body)
+    if not ok:
+        ctx.finding(rule, construct,
+                    f'the offset advances by 1 + len({bargs}) but the bytes '
+                    f'appended in the same block are not one opcode byte '
+                    f'plus {bargs}', asm.file, n.lineno)
+    # only one update of the offset in the loop
+    upd = [x for x in ast.walk(asm_loop)
+           if isinstance(x, (ast.AugAssign, ast.Assign)) and
+           unparse(x.target if isinstance(x, ast.AugAssign)
+                   else x.targets[0]) == off]
+    ctx.instance(rule, construct + ':single-update',
+                 sample={'updates': len(upd)})
+    if len(upd) != 1:
+        ctx.finding(rule, construct + ':single-update',
+                    f'{len(upd)} updates of the code offset in the assembly '
+                    f'loop (expected 1)', asm.file, asm_loop.lineno)
+    # label table: L[name] = OFF, only in the _label arm
+    stores = pat.find_all('_L[_N] = _V', asm_loop)
+    lab = [(x, m) for x, m in stores
+           if isinstance(m['_L'], ast.Name)]
+    label_tabs = {}
+    for x, m in lab:
+        label_tabs.setdefault(unparse(m['_L']), []).append((x, m))
+    # the label table is the one read in the patch loop
+    patch_loop = None
+    for x in ast.walk(asm.node):
+        if isinstance(x, ast.For) and x is not asm_loop and \
+                pat.has('_C[_P:_P + 4] = struct.pack(__, _A)', x):
+            patch_loop = x
+    if patch_loop is None:
         raise AnalysisError('anchor vanished: patch loop')
-    txt = unparse(patch_src)
-    construct = f'{asm.file}:QvmCode.assembled:patch-loop'
-    ctx.instance(rule, construct, sample={'loop': txt[:120]})
-    if 'labels[label]' not in txt.replace(' ', '') and \
-            'labels[' not in txt:
-        ctx.finding(rule, construct, 'patch values are not read from '
-                    'labels[]', asm.file, patch_src.lineno)
+    pn, pm = pat.first('_A = _L[_K]', patch_loop)
+    ctx.instance(rule, f'{asm.file}:QvmCode.assembled:patch-loop')
+    if pn is None:
+        ctx.finding(rule, f'{asm.file}:QvmCode.assembled:patch-loop',
+                    'patch values are not read from the label table',
+                    asm.file, patch_loop.lineno)
+        return
+    ltab = unparse(pm['_L'])
+    ptab = unparse(patch_loop.iter.func.value) if isinstance(
+        patch_loop.iter, ast.Call) and isinstance(
+        patch_loop.iter.func, ast.Attribute) else None
+    n_lab = 0
+    for x, m in label_tabs.get(ltab, []):
+        n_lab += 1
+        c2 = f'{asm.file}:QvmCode.assembled:labels[]='
+        ctx.instance(rule, c2, sample={'value': unparse(m['_V'])})
+        if unparse(m['_V']) != off:
+            ctx.finding(rule, c2,
+                        f'label address recorded as {unparse(m["_V"])}, not '
+                        f'the running code offset {off}', asm.file,
+                        x.lineno)
+    if n_lab == 0:
+        raise AnalysisError('anchor vanished: label table store')
     for op, d in instrs.items():
         if 'Label' not in d.operands:
             continue
-        w = F.ChainWalk(op)
+        w = F.ChainWalk(op, None, asm_subj)
         w.walk(asm_loop.body)
         patched = any(
-            isinstance(s, ast.Assign) and
-            isinstance(s.targets[0], ast.Subscript) and
-            dotted(s.targets[0].value) == 'patch_positions' and
-            unparse(s.targets[0].slice).replace(' ', '') == 'cur_offset+1'
-            for st in w.stmts for s in ast.walk(st))
-        construct = f'{asm.file}:QvmCode.assembled[{op}]:patched'
-        ctx.instance(rule, construct, sample={'op': op, 'patched': patched})
+            pat.has(f'{ptab}[{off} + 1] = __', st) for st in w.stmts) \
+            if ptab else False
+        c3 = f'{asm.file}:QvmCode.assembled[{op}]:patched'
+        ctx.instance(rule, c3, sample={'op': op, 'patched': patched})
         if not patched:
-            ctx.finding(rule, construct,
+            ctx.finding(rule, c3,
                         f'{op!r} has a Label operand but its assembler arm '
-                        f'does not register patch_positions[cur_offset + 1]',
+                        f'does not register a patch at offset + 1',
                         asm.file, asm.line)
 
 
@@ -438,7 +459,7 @@ def frame_declarations(ctx):
     atxt = unparse(asm.node)
     for prefix in ('_sub_', '_func_'):
         ctx.instance(rule2, f'{asm.file}:QvmCode.assembled:{prefix}')
-        if f"name.startswith({prefix!r})" not in atxt:
+        if not pat.has(f'if __.startswith({prefix!r}):\n    ...', asm.node):
             ctx.finding(rule2, f'{asm.file}:QvmCode.assembled:{prefix}',
                         f'assembler does not switch cur_routine on labels '
                         f'starting with {prefix!r}', asm.file, asm.line)
@@ -501,7 +522,26 @@ def _dict_values_of(fn_node, name):
     return vals
 
 
-def expand(pat, holes):
+def _hole_domain(h, fn_node):
+    """A hole bound to a local whose every definition is a one-character
+    string constant ranges over those characters (scope: l/g); any other
+    hole is a type character."""
+    if isinstance(h, ast.Name) and fn_node is not None:
+        ds = local_defs(fn_node).get(h.id, [])
+        vals = []
+        for kind, v in ds:
+            if kind == 'assign' and isinstance(v, ast.IfExp):
+                vals += [const(v.body), const(v.orelse)]
+            elif kind == 'assign':
+                vals.append(const(v))
+            else:
+                vals.append(None)
+        if vals and all(isinstance(x, str) and len(x) == 1 for x in vals):
+            return ''.join(sorted(set(vals)))
+    return TYPE_CHARS
+
+
+def expand(pat, holes, fn_node=None):
     """Expansions of an op pattern: scope holes over l/g, others over type
     chars.  Returns [(op, has_string_char)]."""
     import itertools
@@ -509,11 +549,7 @@ def expand(pat, holes):
         return [(pat, False, [])]
     doms = []
     for h in holes:
-        t = unparse(h)
-        if t == 'scope':
-            doms.append('lg')
-        else:
-            doms.append(TYPE_CHARS)
+        doms.append(_hole_domain(h, fn_node))
     out = []
     for combo in itertools.product(*doms):
         s = pat
@@ -546,7 +582,7 @@ def emittable_encodable(ctx, instrs, pid='C09'):
                         f'constant or f-string; cannot be resolved',
                         f.file, tup.lineno)
             continue
-        exps = expand(pat, holes)
+        exps = expand(pat, holes, f.node)
         ctx.instance(rule, construct, sample={'pattern': pat,
                                               'expansions': len(exps)})
         if pat in PSEUDO:
@@ -594,7 +630,7 @@ def emittable_encodable(ctx, instrs, pid='C09'):
     emitted_all = set()
     for pat, holes, tup, f in ems:
         if pat:
-            emitted_all |= {e[0] for e in expand(pat, holes)}
+            emitted_all |= {e[0] for e in expand(pat, holes, f.node)}
     for op, d in instrs.items():
         h = R.mangle(op, mangling)
         ctx.instance(rule_h, f'qvm/instrs.py:def_instr[{op}]',
@@ -611,8 +647,8 @@ def listing_uses_final(ctx):
              'mnemonic and operands from QvmInstr.final')
     for qn in ('QvmCode.__str__', 'QvmCode.assembled'):
         f = repo.func('qbee.qvm_codegen', qn)
-        uses = any(isinstance(n, ast.Attribute) and n.attr == 'final' and
-                   dotted(n.value) == 'instr' for n in ast.walk(f.node))
+        uses = pat.has('for _I in self._instrs:\n    __, *__ = _I.final\n'
+                       '    ...', f.node)
         ctx.instance(rule, f'{f.file}:{qn}', sample={'uses_final': uses})
         if not uses:
             ctx.finding(rule, f'{f.file}:{qn}',
@@ -631,9 +667,9 @@ def run(ctx):
     ]
     ctx.not_decided = ['byte equality for concrete programs; size limits '
                        'only reached by huge programs']
-    instrs, asm, asm_loop = codec_agreement(ctx)
+    instrs, asm, asm_loop, asm_subj = codec_agreement(ctx)
     section_agreement(ctx)
-    jump_operands(ctx, instrs, asm, asm_loop)
+    jump_operands(ctx, instrs, asm, asm_loop, asm_subj)
     frame_declarations(ctx)
     emittable_encodable(ctx, instrs)
     listing_uses_final(ctx)
